@@ -323,6 +323,47 @@ fn run_run(args: &[Sx]) -> (String, Vec<(String, String)>) {
     }
 }
 
+/// `(runc (np n) (dim d) (iters n) (seed s) (start x) (end x) (c1 x) (c2 x) (vmax x))`: `real_pso` built directly
+/// with parameters the shared template table does not contain (inertia weights above 1, increasing
+/// schedules, zero acceleration coefficients), run the same way `run_template` does.
+fn run_custom(args: &[Sx]) -> (String, Vec<(String, String)>) {
+    use mahf::conditions::LessThanN;
+    use mahf::heuristics::pso;
+    use mahf::problems::Sequential;
+    use mahf::verif::StepObserver;
+    use std::sync::{Arc, Mutex};
+    let np = field(args, "np")[0].nat().unwrap() as u32;
+    let dim = field(args, "dim")[0].nat().unwrap() as usize;
+    let iters = field(args, "iters")[0].nat().unwrap() as u32;
+    let seed = field(args, "seed")[0].nat().unwrap();
+    let problem = Sphere::new(dim, -3.0, 4.0, 0.5);
+    let cfg = match pso::real_pso::<Sphere>(pso::RealProblemParameters {
+        num_particles: np, start_weight: f1(args, "start"), end_weight: f1(args, "end"),
+        c_one: f1(args, "c1"), c_two: f1(args, "c2"), v_max: f1(args, "vmax") }, LessThanN::iterations(iters)) {
+        Ok(c) => c,
+        Err(_) => return ("(ctor-err (steps))".into(), vec![]),
+    };
+    let vis = Arc::new(Mutex::new(PsoVisitor {
+        steps: vec![], vel_cases: vec![], swapped: false, fb: seed, script: None, id: 0, shadow: Sm::new(seed), shadow_pos: 0,
+        c1: f1(args, "c1"), c2: f1(args, "c2"), vmax: f1(args, "vmax"), w0: f1(args, "start"), n_iter: iters,
+        vel_before: None, pb_before: None, hist: vec![],
+    }));
+    let (v2, p2) = (vis.clone(), problem.clone());
+    let r = catch(|| cfg.optimize_with(&problem, |state: &mut State<Sphere>| {
+        state.insert(Random::new(seed));
+        state.insert_evaluator(Sequential::<Sphere>::new());
+        state.insert(StepObserver::<Sphere>(Box::new(move |ph, name, idx, st| {
+            v2.lock().unwrap().step(ph, name, idx, st, &p2);
+        })));
+        Ok(())
+    }));
+    let tag = match &r { None => "panic", Some(Err(_)) => "err", Some(Ok(_)) => "ok" };
+    drop(r);
+    let mut g = vis.lock().unwrap_or_else(|e| e.into_inner());
+    if g.swapped { unregister(g.id); }
+    (list([tag.to_string(), tagged("steps", std::mem::take(&mut g.steps))]), std::mem::take(&mut g.vel_cases))
+}
+
 fn run_case(input: &Sx) -> String {
     let (kind, args) = input.head().unwrap();
     match kind {
@@ -333,6 +374,7 @@ fn run_case(input: &Sx) -> String {
         "swarm" => run_swarm(args),
         "linear" => run_linear(args),
         "run" => run_run(args).0,
+        "runc" => run_custom(args).0,
         _ => panic!("unknown case kind {kind}"),
     }
 }
@@ -379,7 +421,7 @@ impl Gen {
     }
 }
 
-fn vel_case(g: &mut Gen, malformed: u64) -> String {
+fn vel_case(g: &mut Gen, malformed: u64, special: u64) -> String {
     let n = g.rng.range(1, 10) as usize;
     let dim = g.rng.range(1, 5) as usize;
     let vmax = g.vmax();
@@ -396,14 +438,19 @@ fn vel_case(g: &mut Gen, malformed: u64) -> String {
         8 => dv = dim - 1,     // velocity shorter: surplus coordinates untouched
         _ => {}
     }
-    let xs: Vec<String> = (0..n).map(|_| { let e = g.rng.chance(4, 5); g.part(dim, e) }).collect();
+    // special 2: every particle sits on its personal best and on the global best, so both attraction
+    // terms vanish and the result is independent of the draws: v' = clamp(w_stored * v)
+    let shared = g.pos(dim);
+    let at_best = |g: &mut Gen| list([vec_s(&shared), fx(Gen::obj_of(&shared))]);
+    let xs: Vec<String> = (0..n).map(|_| if special == 2 { at_best(g) } else { let e = g.rng.chance(4, 5); g.part(dim, e) }).collect();
     let vs: Vec<String> = (0..nv).map(|_| vec_s(&(0..dv).map(|_| (g.rng.unit() * 2.0 - 1.0) * vmax * if g.rng.chance(1, 6) { 3.0 } else { 1.0 }).collect::<Vec<_>>())).collect();
-    let pb: Vec<String> = (0..npb).map(|_| g.part(dim, true)).collect();
-    let gb = if gb_none { "none".to_string() } else { g.part(dg, true) };
+    let pb: Vec<String> = (0..npb).map(|_| if special == 2 { at_best(g) } else { g.part(dim, true) }).collect();
+    let gb = if gb_none { "none".to_string() } else if special == 2 { at_best(g) } else { g.part(dg, true) };
+    let (ca, cb) = if special == 1 { (0.0, 0.0) } else { (g.coef(), g.coef()) };
     let nw = 2 * n * dim;
     let scripted = if g.rng.chance(1, 2) { nw } else { g.rng.below(nw as u64 + 1) as usize };
     format!("(vel (w {}) (w0 {}) (c1 {}) (c2 {}) (vmax {}) (fb {}) {} {} {} {} (gbest {}))",
-        fx(*g.rng.pick(&[0.0, 0.4, 0.9, 1.0, 1.5])), fx(*g.rng.pick(&[0.0, 0.7, 5.0])), fx(g.coef()), fx(g.coef()), fx(vmax), g.rng.below(1000),
+        fx(*g.rng.pick(&[0.0, 0.4, 0.729, 0.9, 1.0, 1.2, 1.4, 1.5])), fx(*g.rng.pick(&[0.0, 0.7, 5.0])), fx(ca), fx(cb), fx(vmax), g.rng.below(1000),
         tagged("words", g.words(scripted).iter().map(|w| w.to_string())), tagged("xs", xs), tagged("vs", vs), tagged("pbest", pb), gb)
 }
 
@@ -423,8 +470,8 @@ fn main() {
         out.case(site, &input, &run_case(&sx));
     };
     let reps = if a.thorough { 3000 } else { 400 };
-    for _ in 0..reps { emit("vel", vel_case(&mut g, 0)); }
-    for k in 0..(if a.thorough { 400 } else { 80 }) { emit("vel-malformed", vel_case(&mut g, 1 + k % 8)); }
+    for k in 0..reps { emit("vel", vel_case(&mut g, 0, if k % 4 == 1 { 1 } else if k % 4 == 3 { 2 } else { 0 })); }
+    for k in 0..(if a.thorough { 400 } else { 80 }) { emit("vel-malformed", vel_case(&mut g, 1 + k % 8, 0)); }
     for _ in 0..(if a.thorough { 1000 } else { 150 }) {
         let n = g.rng.range(0, 10) as usize;
         let dim = g.rng.range(1, 5) as usize;
@@ -489,6 +536,27 @@ fn main() {
                 for (vi, vo) in vel_cases {
                     out.case("run-vel", &vi, &vo);
                 }
+            }
+        }
+    }
+    // runs with parameters outside the shared template table
+    let custom: [(u64, u64, f64, f64, f64, f64, f64); 5] = [
+        (5, 2, 1.4, 0.4, 0.0, 0.0, 10.0),   // weight above 1, no attraction: v' = clamp(w_stored * v)
+        (3, 1, 1.2, 0.4, 1.7, 1.7, 1.0),
+        (4, 3, 0.4, 0.9, 2.0, 2.0, 0.1),    // increasing schedule
+        (6, 2, 0.729, 0.729, 1.49, 1.49, 2.0),
+        (1, 2, 1.5, 0.0, 0.0, 2.0, 0.5),    // a single particle is its own global best
+    ];
+    for (k, c) in custom.iter().enumerate() {
+        for s in 0..(if a.thorough { 4 } else { 1 }) {
+            let input = format!("(runc (np {}) (dim {}) (iters {}) (seed {}) (start {}) (end {}) (c1 {}) (c2 {}) (vmax {}))",
+                c.0, c.1, if a.thorough { 100 } else { 30 }, a.seed * 100 + 50 + s + 10 * k as u64, fx(c.2), fx(c.3), fx(c.4), fx(c.5), fx(c.6));
+            let sx = Sx::parse(&input).unwrap();
+            let (_, args) = sx.head().unwrap();
+            let (output, vel_cases) = run_custom(args);
+            out.case("run", &input, &output);
+            for (vi, vo) in vel_cases {
+                out.case("run-vel", &vi, &vo);
             }
         }
     }
